@@ -80,7 +80,37 @@ def v_parallel(chk, pg_summ):
         a.run()
         analyses[m] = a
     radius_argument(chk, analyses)
+    gradient_out_param(chk)
     return pgv
+
+
+def gradient_out_param(chk):
+    """gridStep fills parGradVals[i] through parallel_gradient's output argument and gridStepKeepGradient reads the table later:
+    the array handed in must end up holding the very value the function returns"""
+    gs = chk.func(U.ADV, "VParallelAdvection.gridStep")
+    pgf = chk.func(U.ADV, "ParallelGradient.parallel_gradient")
+    params = [a.arg for a in pgf.args.args if a.arg != "self"]
+    calls = [c for c in ast.walk(gs) if isinstance(c, ast.Call) and isinstance(c.func, ast.Attribute) and c.func.attr == "parallel_gradient"]
+    if len(calls) != 1:
+        raise AnalysisError("C05/C11: the parallel_gradient call of VParallelAdvection.gridStep not found")
+    b = agree.bind_call(calls[0], params) or {}
+    out = [p_ for p_, a in b.items() if isinstance(a, ast.Subscript) and src(a.value) == "parGradVals"]
+    if len(out) != 1:
+        chk.ob("E2-gradient-out-param", calls[0], "parGradVals[i] handed to parallel_gradient as output array", None,
+               "no argument of the call is a row block of parGradVals", file=U.ADV, func="VParallelAdvection.gridStep")
+        return
+    o = out[0]
+    rets = [r for r in ast.walk(pgf) if isinstance(r, ast.Return) and r.value is not None]
+    rebinds = [n for n in ast.walk(pgf) if isinstance(n, ast.Assign) and any(isinstance(t, ast.Name) and t.id == o for t in n.targets)]
+    bad = [r for r in rets if not (isinstance(r.value, ast.Name) and r.value.id == o)]
+    ok = not bad and not rebinds
+    why = (f"`{o}` is only updated in place and is what the function returns: the table row read by gridStepKeepGradient is the gradient "
+           "used by gridStep") if ok else \
+        (f"`{src(bad[0])}` returns a value that is not the output array `{o}`: the table row keeps a different (unscaled/partial) value, "
+         "so gridStepKeepGradient advects with another speed than gridStep" if bad else
+         f"`{src(rebinds[0])}` rebinds `{o}`: later updates no longer reach the caller's table row")
+    chk.ob("E2-gradient-out-param", bad[0] if bad else (rebinds[0] if rebinds else pgf), f"parallel_gradient leaves its result in `{o}`", ok, why,
+           file=U.ADV, func="ParallelGradient.parallel_gradient")
 
 
 class _Mute:
